@@ -284,10 +284,12 @@ def rule_write_specials(col, facts):
     found = False
     for i, b in enumerate(wf.blocks):
         for st in b["s"]:
-            if st[0] == "=" and st[2][0] == "use" and st[2][1][0] == "k" and st[2][1][1].get("v") == 45 and st[1][1]:
+            from rules.c08 import _mentions_byte
+            from rules.core import every_path_has
+            if st[0] == "=" and _mentions_byte(st[2], 45) and wf.live(i):
+                # (a direct store `bytes[0] = b'-'`, or the byte on its way there: `Some(b'-')`)
                 found = True
-                conds = path_conditions(wf, i)
-                ok = any(strip_casts(e)[0] == "call" and strip_casts(e)[1].endswith("Float::needs_negative_sign") and pol is True for _d, e, pol in conds)
+                ok = every_path_has(wf, i, lambda e, pol: e[0] == "call" and e[1].endswith("Float::needs_negative_sign") and pol is True)
                 col.check(R, "minus-store", ok, "b'-' is stored on a path where needs_negative_sign() was not tested true", wf.loc(st[3]))
     col.check(R, "minus-store-present", found, "no b'-' store found in WriteFloat::write_float", wf.loc())
     nn = facts.fn("lexical_util::num::Float::needs_negative_sign")
